@@ -31,8 +31,8 @@ Json gen_fault(Rng &g)
     Json f = Json::object();
     static const char *kinds[] = {"bitflip", "byte",   "trunc", "zero_sector",
                                   "dup_sector", "splice", "field", "field",
-                                  "field", "field"};
-    std::string k = kinds[g.below(10)];
+                                  "field", "field", "numeral", "numeral"};
+    std::string k = kinds[g.below(12)];
     f["kind"] = k;
     f["at"] = (long long)g.below(100000);
     if (k == "bitflip")
@@ -46,6 +46,11 @@ Json gen_fault(Rng &g)
     }
     if (k == "splice")
         f["other"] = (long long)g.below(64);
+    if (k == "numeral") { // an integer string replaced by an adversarial numeral
+        f["how"] = g.chance(1, 4) ? "digit" : "replace";
+        f["v"] = (long long)g.below(256);
+        f["with"] = (long long)g.below(100000);
+    }
     if (k == "field") {
         static const char *how[] = {"inc", "dec", "zero", "huge", "max", "flip",
                                     "swap", "rand", "inc", "dec"};
@@ -85,6 +90,23 @@ Json gen(uint64_t seed, const std::string &tier)
     unsigned nops = 3 + (unsigned)g.below(thorough ? 30 : 16);
     for (unsigned k = 0; k < nops; k++) {
         Json o = Json::object();
+        if (g.chance(1, 10)) {
+            // bytes that never were a dump: nothing, a few random bytes, or a
+            // valid header followed by random bytes
+            o["op"] = "soup";
+            o["e"] = (long long)g.below(npool);
+            o["keep"] = (long long)(g.chance(1, 2) ? 0 : g.below(24));
+            Json bytes = Json::array();
+            unsigned nb = (unsigned)g.below(g.chance(1, 3) ? 200 : 24);
+            for (unsigned i = 0; i < nb; i++)
+                bytes.push((long long)(g.chance(1, 3) ? g.below(8) : g.below(256)));
+            o["bytes"] = bytes;
+            o["api"] = g.chance(2, 3) ? "string" : "archive";
+            o["read_seed"] = (long long)(g.next() >> 2);
+            o["faults"] = Json::array();
+            ops.push(o);
+            continue;
+        }
         o["op"] = "load";
         o["e"] = (long long)g.below(npool);
         o["api"] = g.chance(2, 3) ? "string" : "archive";
@@ -231,12 +253,49 @@ void apply_fault(std::string &b, Dump &d, const Json &f,
         const Dump &o = others[(size_t)f.geti("other") % others.size()];
         if (o.bytes.size() > 4)
             b = b.substr(0, at) + o.bytes.substr(std::min(o.bytes.size() - 1, at));
+    } else if (k == "numeral") {
+        // integer strings: an 8-byte length followed by that many digits
+        std::vector<size_t> cand;
+        for (size_t i = 1; i < d.fields.size(); i++) {
+            size_t off = d.fields[i].first, len = d.fields[i].second;
+            if (d.fields[i - 1].second != 8 || len == 0 || len > 64 || off + len > b.size()
+                || d.fields[i - 1].first + 8 > b.size() || rd64(b, d.fields[i - 1].first) != len)
+                continue;
+            bool num = true;
+            for (size_t j = 0; j < len && num; j++)
+                num = isdigit((unsigned char)b[off + j]) || (j == 0 && len > 1 && b[off] == '-');
+            if (num)
+                cand.push_back(i);
+        }
+        if (cand.empty())
+            return;
+        size_t fi = cand[(size_t)f.geti("at") % cand.size()];
+        size_t off = d.fields[fi].first, len = d.fields[fi].second;
+        std::string rep = b.substr(off, len);
+        if (f.gets("how") == "digit") {
+            rep[(size_t)f.geti("with") % rep.size()] = "0-9+ "[(size_t)f.geti("v") % 5];
+        } else {
+            static const char *bad[] = {"-", "", "0", "-0", "00", "+1", " 1", "1 ", "0x10", "1e5", "--1",
+                                        "1-", "99999999999999999999999", "-99999999999999999999",
+                                        "9223372036854775807", "9223372036854775808",
+                                        "-9223372036854775808", "-9223372036854775809",
+                                        "18446744073709551616", "1/2", "1.5", "-", "0"};
+            rep = bad[(size_t)f.geti("v") % (sizeof bad / sizeof bad[0])];
+        }
+        run.count("numeral_fault." + std::string(rep.size() <= 4 ? rep : rep.substr(0, 4) + "~"));
+        b.replace(off, len, rep);
+        wr64(b, d.fields[fi - 1].first, rep.size());
+        long delta = (long)rep.size() - (long)len;
+        d.fields[fi].second = rep.size();
+        for (size_t i = fi + 1; i < d.fields.size(); i++)
+            d.fields[i].first = (size_t)((long)d.fields[i].first + delta);
+        d.bytes = b; // keep the field map and the bytes it describes in step
     } else if (k == "field") {
         if (d.fields.empty())
             return;
         size_t fi = (size_t)(f.geti("at") % (int64_t)d.fields.size());
         size_t off = d.fields[fi].first, len = d.fields[fi].second;
-        if (off + len > b.size())
+        if (off + len > b.size() || off + len > d.bytes.size() || len == 0)
             return;
         std::string how = f.gets("how");
         std::string fk = classify_field(d, fi);
@@ -382,7 +441,14 @@ void exec(Run &run)
         const Json &fs = o.at("faults");
         for (size_t i = 0; i < fs.size(); i++)
             apply_fault(b, d, fs[i], valid, run);
-        bool changed = b != d.bytes;
+        if (o.gets("op") == "soup") {
+            b.resize(std::min<size_t>(b.size(), (size_t)o.geti("keep")));
+            const Json &bs = o.at("bytes");
+            for (size_t i = 0; i < bs.size(); i++)
+                b.push_back((char)bs[i].as_int());
+            run.fault("soup");
+        }
+        bool changed = b != dumps[idx].bytes;
         bool archive = o.gets("api") == "archive";
         std::string outcome;
         RCP<const Basic> l;
